@@ -792,3 +792,20 @@ package profile
 //@     invariant 0 <= $i && $i <= len(sample.Location) && sample != nil
 //@     invariant forall q int :: 0 <= q && q < len(locs) ==> locs[q] != nil
 //@     invariant forall q int :: 0 <= q && q < len(sample.Location) ==> sample.Location[q] != nil
+
+// ---- C01 (strengthened after seeded change utf8-sanitise-string-table): strings are written byte for byte ----
+//@ func encodeString arith bv
+//@   requires b != nil
+//@   ensures length: len(b.data) == old(len(b.data)) + vlen(keyof(tag, 2)) + vlen(uint64(len(x))) + len(x)
+//@   ensures prefix: forall j int :: 0 <= j && j < old(len(b.data)) ==> b.data[j] == old(b.data[j])
+//@   ensures key: forall j int :: old(len(b.data)) <= j && j < old(len(b.data)) + vlen(keyof(tag, 2)) ==> b.data[j] == vbyte(keyof(tag, 2), j - old(len(b.data)))
+//@   ensures bytes: forall j int :: old(len(b.data)) + vlen(keyof(tag, 2)) + vlen(uint64(len(x))) <= j && j < len(b.data)
+//@       ==> b.data[j] == x[j - old(len(b.data)) - vlen(keyof(tag, 2)) - vlen(uint64(len(x)))]
+
+// ---- C01/C08 (strengthened after seeded changes stale-comment-indices-on-rewrite / preencode-comment-index-not-reset):
+// the comment index list is rebuilt from scratch on every serialization ----
+//@ func Profile.preEncode nosafety
+//@   requires p != nil
+//@   ensures comments: len(p.commentX) == len(p.Comments)
+//@   loop 14
+//@     invariant 0 <= $i && $i <= len(p.Comments) && len(p.commentX) == $i && p != nil
